@@ -945,6 +945,20 @@ class Decision:
             if k in ("ForStmt", "WhileStmt", "DoStmt", "SwitchStmt", "CXXTryStmt", "CXXForRangeStmt", "GotoStmt",
                      "BreakStmt", "ContinueStmt"):
                 fail("statement kind %s in a decision function" % k)
+            if k == "DeclStmt" and len(kids(s)) == 1 and kids(s)[0]["kind"] == "VarDecl" and kids(kids(s)[0]) and \
+                    not any(not p.startswith("neutral ") for p in path):
+                # an immutable local computed from the inputs before any effect (`auto const n = timeout.count();`): a `let`
+                d = kids(s)[0]
+                try:
+                    v = self.t.expr(kids(d)[-1])
+                    if v.ty.kind in ("int", "bool", "dur", "tp") and not self.t.assigned(d["id"], ss[i + 1:]):
+                        name = lean_ident(d.get("name"), [p for p, _ in self.t.spec])
+                        self.t.locals[d["id"]] = (name, v.ty)
+                        rest_txt = self.walk(ss[i + 1:], path + ["neutral let " + name], ind)
+                        return "%slet %s : %s := %s\n%s" % (pad, name, "Bool" if v.ty == BOOL else "Int",
+                                                            as_bool(v) if v.ty == BOOL else v.s, rest_txt)
+                except Untranslatable:
+                    pass
             text = canon_stmt(s)
             if k == "DeclStmt" and NEUTRAL_DECL_TYPES.search(re.sub(r"^const\s+", "", (kids(s)[0].get("type") or {}).get("qualType", ""))):
                 text = "neutral " + text
@@ -999,6 +1013,8 @@ GET_TABLE = [
     (".throwOutOfBuffers", [["throw runtime_error(out of buffers)"], ['throw runtime_error("out of buffers")']]),
     (".reuseIdleTop true", [["decl buf = m_busy.emplace_back(move(m_idle.top()))", "m_idle.pop()", "buf->clear()",
                              "return BufferPtr(buf.get(),Recycler{this})"]]),
+    (".reuseIdleTop true", [["m_busy.emplace_back(move(m_idle.top()))", "m_idle.pop()", "m_busy.top()->clear()",
+                             "return BufferPtr(m_busy.top().get(),Recycler{this})"]]),
     (".reuseIdleTop false", [["decl buf = m_busy.emplace_back(move(m_idle.top()))", "m_idle.pop()",
                               "return BufferPtr(buf.get(),Recycler{this})"]]),
 ]
